@@ -93,7 +93,7 @@ def _run_case(case, ctx):
         for j, s in enumerate(specs):
             c.add_file(G.to_coco(s))                        # M7 fires per add_file
             # the same object is listed between additions (list, add, list ...)
-            if nonempty_so_far and len(s["data"]) > 0:
+            if True:
                 try:
                     mid = c.list_files()
                     ctx.mon("reader.list_files.same-object")
@@ -129,7 +129,7 @@ def _run_case(case, ctx):
         ctx.violation("tape-roundtrip", form, "READER-RAISED:%s" % type(e).__name__, dict(wit, error=str(e)[:100]), prop="C06")
         return
     ok = compare_listing(ctx, "C06", "tape-roundtrip", form, listed, specs, wit)
-    if ok and specs and not any(len(s["data"]) == 0 for s in specs):
+    if ok and specs:
         # the same bytes as a host file, opened the way file_util.py --list opens them (container sniffing included)
         import tempfile
         from cocoasm.virtualfiles.virtual_file import VirtualFile
